@@ -128,6 +128,7 @@ class Check:
         self.evaluations += 1
         if nontrivial:
             self.nontrivial.add(label)
+        self._progress(label)
         v = self.prover.prove(claim, assumptions, label)
         if v.status == "unsat":
             self.discharged += 1
@@ -242,6 +243,21 @@ class Check:
         finally:
             _real._CUR[0] = prev_ctx
         return bool(good)
+
+    def _progress(self, label):
+        """developer aid: the label being worked on, at most once per 5 s, next to the evidence of this process"""
+        now = time.time()
+        if now - getattr(self, "_plast", 0) < 5:
+            return
+        self._plast = now
+        try:
+            d = os.environ.get("VERIF_EVIDENCE_DIR")
+            if d:
+                os.makedirs(d, exist_ok=True)
+                with open(os.path.join(d, f"{self.pid}.progress"), "a") as f:
+                    f.write(f"{now - self.t0:8.1f}s obligations={self.obligations} queries={self.prover.queries} {label[:160]}\n")
+        except Exception:  # noqa
+            pass
 
     def inconclusive_note(self, text):
         self.inconclusive.append(text)
